@@ -298,6 +298,28 @@ CHECKS.update({
     ),
 })
 
+CHECKS.update({
+    "C10": dict(
+        level="model_checking", engine="hbfs",
+        text="Explicit-state breadth-first search over evaluation histories executed on the real objects: 194 programs enumerated from templates (lazy constants indexed at "
+             "run time, short-cut readers chosen at run time, appends to constants, constant maps, closures capturing the argument and returned unconsumed, lazy results "
+             "forced later / half / never, failures at every let/argument depth, try/catch, recursion, multiUse, all-constant programs, host constants, static functions "
+             "compiled from strings, nested evaluation) in 837 (thorough about 1500) configurations on one value.New() generator each - every program alone, through "
+             "Generate / GenerateWithMap / CreateAst+GenerateFunc, with Func.Eval and with one caller-owned stack, with Generate calls in between, and in pairs. "
+             "Transitions are Eval(f,arg) over a pool of 5 arguments with the result consumed fully / first element only / not at all / later, consumption of kept "
+             "handles, and Generate on the used generator. Every outcome is compared with the same call as the first evaluation on a fresh generator. States are "
+             "deduplicated on the hidden state of every folded constant list, the optimizer stack, pending handles and stack residue. Quick: 82 927 states, 1 461 545 "
+             "transitions, all executed on the implementation; fixpoint reached in 740 of 837 configurations (depth 3-7), the rest completed at depth 4-6; plus 333 "
+             "plain 50-step histories.",
+        note="Differential oracle: the reference is the implementation itself on a fresh generator, so a result that is wrong already on the first evaluation is C01/C07's "
+             "subject. Error texts are not compared. The fixpoint argument trusts that the key contains every field the list code reads (overlay accessors plus "
+             "reflection over all other List fields) and 128-bit key hashes. Pairs, generate-in-between and host configurations are depth-bounded. Lists have fewer "
+             "than 12 elements (sequential iterator mode). Concurrency is C11's subject.",
+        technique="replay-based explicit-state BFS over histories on real objects to a fixpoint of a hidden-state canonical key, differential oracle against the first evaluation on a fresh generator",
+        design_ref="DESIGN.md §3.4, §5 C10",
+    ),
+})
+
 NOT_YET = "check not built yet in this session (planned, see DESIGN.md §9); not claimed until its machinery exists"
 
 def main():
